@@ -42,11 +42,13 @@ CLAIMED['C09'] = dict(
         'centroid+farthest-vertex circles (linestring, multi-*, wedge) contain every vertex, touch one and are minimal for that centre; the '
         'GeoBox circle is proved to enclose exactly the corners not farther than the NW corner (finding D10). Tied to the code by an in-Coq '
         'correspondence with the implementation own distances as order-preserving integers. NOT decided by proof and exercised on fixed '
-        'corpora only: the Welzl polygon circle (correctness, minimality, RNG-seed independence; finding D22) and the 1% figure for WEDGE '
-        'bounds (finding D21 for wedges across +-180). The 1% clause IS proved (Props/C09c.v, 17 theorems, over the reals, |lat| <= 75, 0 <= r <= 10 km) for circles, full rings and '
-        'ellipses at any rotation: the bounds the code computes (destinations at 315/135 deg and r*sqrt 2; ellipse axis extents), including the 7-decimal rounding, are within r/100 + 5.6 mm '
+        'corpora only: the Welzl polygon circle (correctness, minimality, RNG-seed independence; findings D22, D50). '
+        'The 1% clause IS proved (Props/C09c.v 17 theorems, Props/C09d.v 14 theorems, over the reals, |lat| <= 75, 0 <= r <= 10 km) for circles, full rings, '
+        'ellipses at any rotation AND wedges (min/max over the <= 10 degree samples of both arcs never overshoot and fall short of the extents of the whole outline, arcs and radial arms, by at most r/100; '
+        'finding D21 remains for wedges whose outline crosses +-180): the bounds the code computes (destinations at 315/135 deg and r*sqrt 2; ellipse axis extents), including the 7-decimal rounding, are within r/100 + 5.6 mm '
         'of the true extents of the curve, which are themselves proved to be the max/min (sup/inf for ellipses) of latitude and longitude along the curve; this real-number model is tied to '
-        'structures.py by its own translator tie (4 GenEq lemmas) and per-shape interval lemmas |model - shape.bounds| <= 6e-8 deg. The circumscribing circles of circles, ellipses and full rings are proved (over the reals, from the C03 '
+        'structures.py by its own translator ties (gen_curvebounds: 4 GenEq lemmas; gen_wedgebounds: _draw_bounds, bounding_coords and both branches of GeoRing.bounds, the accumulating loop proved equal to the sample maps by induction) '
+        'and per-shape interval lemmas |model - shape.bounds| <= 6e-8 deg (for wedges: every sample of bounding_coords() against the model, then min/max by comparison). The circumscribing circles of circles, ellipses and full rings are proved (over the reals, from the C03 '
         'on-curve theorems) to contain every generated boundary point for every k, with the ellipse radius attained; their float evaluation is exercised on a fixed corpus.',
    note='Trusted: Coq kernel + vm_compute; hand statement that BoundsM mirrors the min/max and max-distance expressions (checked by '
         'correspondence); harness; IEEE doubles compared through their order-preserving bit image. No axioms for the discrete theorems; the curved-bounds theorems (C09b, C09c) depend on the '
